@@ -8,7 +8,7 @@ use xeh::prelude::*;
 pub const DEF: PropDef = PropDef {
     id: "C14",
     rule: "programs = control-flow backbone + snippets (builders, foreach, let, locals, late words, cursor reads, recursion, meta blocks) + stack flooders (unbox, loops pushing, recursion, nested builders), heap growers (var, let, API defvar) and non-terminating loops, on an interpreter that already holds a prelude. \
-An unlimited twin is compiled and single-stepped, recording for every step the highest data-stack length it reached (hook verif_take_stack_peak), the heap length and the instruction meter; this gives, independently of the limit checks, the exact need of the program. Reverse recording is on in 1 case of 3. A limit (N, S or H) is then drawn around that need (need, need+-1, 0, 1, far above) and the program is driven by eval, compile+run and compile+step. \
+An unlimited twin is compiled and single-stepped, recording for every step the highest data-stack length it reached (hook verif_take_stack_peak), the heap length and the instruction meter; this gives, independently of the limit checks, the exact need of the program. Reverse recording is on in 1 case of 3. A limit (N, S or H) is then drawn around that need (in 1 case of 3 one of the other limits is re-set to a value far above any need between two steps of the stepped run - that must not refill or change anything) (need, need+-1, 0, 1, far above) and the program is driven by eval, compile+run and compile+step. \
 Oracle: hard bound after every step (stack <= S, heap <= H, successful steps since the limit was set <= N); exact boundary - the limited run succeeds with the twin's final state iff the limit covers the need, otherwise it fails with the matching limit error, in the stepped run exactly at the step the twin predicts and with the machine state the twin had before that step; \
 while an instruction limit is exhausted and not raised, further submissions and resume calls execute nothing; recoverable - after an instruction stop, raising the limit and run() finishes with exactly the twin's final state; after a stack/heap stop, raising the limit and evaluating fresh probes (definition, variable, builder, meta block, arithmetic) gives their normal results. Limits are also changed between evaluations on one interpreter. \
 Non-trivial = the limit lies within +-1 of the need, or is hit inside a call / loop / builder / meta block; distinct = hash of program, limit kind and value",
@@ -311,6 +311,10 @@ pub fn case(ch: &mut Choices, ctx: &CaseCtx) -> CaseOut {
         }
     };
     let _ = m0;
+    // limits changed while the program is stopped between two steps: re-setting one of the *other* limits (to a value
+    // far above any need) must not touch the budget of the limit under test
+    let poke: Option<usize> = if ch.chance(1, 3) { Some(ch.below(steps + 1)) } else { None };
+    let poke_first = ch.bool();
     for drive in 0..3 {
         if out.fail.is_some() {
             break;
@@ -323,6 +327,8 @@ pub fn case(ch: &mut Choices, ctx: &CaseCtx) -> CaseOut {
         set_lim(&mut xs, which, Some(limit));
         spy_reset();
         let mut executed = 0usize;
+        let mut poked = false;
+        let _ = &poked;
         let mut fail_state: Option<Vec<(&'static str, String)>> = None;
         let res: Xresult = match drive {
             0 => match guard(|| xs.eval(&src)) {
@@ -350,7 +356,14 @@ pub fn case(ch: &mut Choices, ctx: &CaseCtx) -> CaseOut {
                 let mut r = c;
                 if r.is_ok() {
                     while xs.is_running() && executed <= CAP + 10 {
-                        let before = if which == Lim::Insn { Some(sections(&xs)) } else { None };
+                        if poke == Some(executed) {
+                            poked = true;
+                            out.class("another-limit-re-set-between-two-steps");
+                            let others: Vec<Lim> = [Lim::Stack, Lim::Heap, Lim::Insn].iter().copied().filter(|l| *l != which && *l != Lim::Insn).collect();
+                            let l = others[if poke_first { 0 } else { others.len() - 1 }];
+                            set_lim(&mut xs, l, Some(1_000_000));
+                        }
+                        let before = if which == Lim::Insn || recording { Some(sections(&xs)) } else { None };
                         match guard(|| xs.next()) {
                             Ok(Ok(())) => {
                                 executed += 1;
@@ -460,7 +473,10 @@ pub fn case(ch: &mut Choices, ctx: &CaseCtx) -> CaseOut {
                     }
                 }
                 // ---- recoverability ----------------------------------------------------------
-                if which == Lim::Insn && drive >= 1 && k >= 2 && twin.finished && !has_meta {
+                // (a stack / heap refusal in the middle of a native word may leave that word half done; when the refused
+                // step left the machine as it was - a plain push - the program is resumable just the same)
+                let refused_unchanged = which != Lim::Insn && drive == 2 && fail_state.as_ref().map(|b| &sections(&xs) == b).unwrap_or(false);
+                if (which == Lim::Insn || refused_unchanged) && drive >= 1 && k >= 2 && twin.finished && !has_meta {
                     // the stop happens before the instruction mutates anything: resume must complete the program
                     if let (Some(b), 2) = (&fail_state, drive) {
                         let now = sections(&xs);
@@ -470,11 +486,33 @@ pub fn case(ch: &mut Choices, ctx: &CaseCtx) -> CaseOut {
                             break;
                         }
                     }
-                    xs.set_insn_limit(Some(need_insn + 10)).unwrap();
+                    if which == Lim::Insn {
+                        xs.set_insn_limit(Some(need_insn + 60)).unwrap();
+                    } else {
+                        set_lim(&mut xs, which, None);
+                    }
+                    // with recording on the debugger may first step back: the refused step left nothing in the log
+                    if recording && drive == 2 {
+                        out.class("resumed-after-stepping-back-from-the-refusal");
+                        let back = 1 + (limit + executed) % 3;
+                        let mut bad = false;
+                        for _ in 0..back {
+                            if !matches!(guard(|| xs.rnext()), Ok(Ok(()))) {
+                                bad = true;
+                                break;
+                            }
+                        }
+                        if bad {
+                            fail(&mut out, dname, "after raising the limit, rnext() fails", String::new());
+                            break;
+                        }
+                    }
+                    let stepped_back = recording && drive == 2;
                     match guard(|| xs.run()) {
                         Ok(Ok(())) => {
                             let fs = sections(&xs);
-                            if fs != twin.final_sections || xs::vars(&xs) != twin.final_vars || xs::take_stdout(&mut xs) != twin.final_stdout {
+                            // (printed text is not retracted by stepping back, so it is printed again)
+                            if fs != twin.final_sections || xs::vars(&xs) != twin.final_vars || (!stepped_back && xs::take_stdout(&mut xs) != twin.final_stdout) {
                                 let d = fs.iter().zip(twin.final_sections.iter()).find(|(a, b)| a != b).map(|(a, b)| format!("{}: {} vs twin {}", a.0, a.1, b.1)).unwrap_or_default();
                                 fail(&mut out, dname, "after raising the limit, run() does not finish in the twin's final state", d);
                                 break;
